@@ -29,7 +29,7 @@ def main():
         args = args[:i] + args[i + 2:]
     names = args or sorted(os.path.basename(d) for d in glob.glob(os.path.join(V, "seeded", "C*-*")))
     names = [x for j, x in enumerate(names) if j % n == k]
-    w = f"/tmp/seedv/REG{k}"
+    w = f"/tmp/seedv/REG{os.environ.get('REGNAME', k)}"
     head = subprocess.run(["git", "-C", "/repo", "rev-parse", "HEAD"], stdout=subprocess.PIPE).stdout.decode().strip()
     if not os.path.isdir(w):
         os.makedirs("/tmp/seedv", exist_ok=True)
